@@ -24,11 +24,11 @@ longer behaves like the list of rows is reported as a violation (regression), ne
 Outside the model (checked by the Python list-of-rows oracle only): the `dtype` attribute; the cell
 dimension that `shape` appends for multi-dimensional cells and `flatten()` of such cells (cells are
 atomic here: the model's `flatten`/`shape`/`size` count cells); the integer dtype of index arrays
-(indices are unbounded integers here — finding `getitem-narrow-int-index-overflow`: int8/int16 index
-arrays with negative entries overflow in `_handle_negative_indices`); the shape of a paired result
-(a flat list here — finding `getitem-paired-one-element-column-list`: `a[[0,1],[2]]` comes back 2×2).
-For these two input classes `getItemF` describes the proposed repair
-(`C05-paired-broadcast-narrow-int.diff`), and the harness excuses the staged code under those keys only.
+(indices are unbounded integers here; `_convert_from_2d` casts integer index arrays to `int` before
+any arithmetic, and the harness drives int8/int16/int32/uint8/intp arrays and scalars, also with
+negative entries on dimensions larger than the dtype's range); the array shape of a paired result (a
+flat list here; the harness compares nested lists, so a k×k block instead of k cells is a violation).
+Both were defects until commit 82d78c9 and are ordinary, unexcused cases now.
 Outside the property's quantifier (positive row lengths): on an array without any cell `shape`
 raises `IndexError` (`lengths[0]`; `shape`/`specShape` model exactly that).
 
@@ -147,7 +147,7 @@ theorem get_paired {α : Type} (ra : RA α) (h : WF ra) (fast : Bool) (l l2 : Li
     absE (getItemF ra fast (.two (.list l b) (.list l2 b2))) = specGet (rows ra) (.two (.list l b) (.list l2 b2)) :=
   get_paired_F ra h fast l l2 b b2 hlen
 
-/-- `a[[i…], [j]]`: a one-element column list is broadcast over the row list, as numpy does (model of the proposed repair, see header) -/
+/-- `a[[i…], [j]]`: a one-element column list is broadcast over the row list, as numpy does (`np.repeat` in `_convert_from_2d`) -/
 theorem get_paired_broadcast_col {α : Type} (ra : RA α) (h : WF ra) (fast : Bool) (l : List Int) (b b2 : Bool) (j : Int)
     (hl : l.length ≠ 1) :
     absE (getItemF ra fast (.two (.list l b) (.list [j] b2))) = specGet (rows ra) (.two (.list l b) (.list [j] b2)) :=
